@@ -177,7 +177,50 @@ pub fn one(ctx: &mut Ctx, plan: &Plan) -> bool {
     true
 }
 
+/// `comp (pair w_1 (pair w_2 (… w_k))) unit` with every witness pinned to a type from the zoo (sums
+/// with equal-width branches padded on one side only, nested), the last one a bit or a byte: every
+/// witness value must come back bit for bit whatever follows it in the stream
+fn witness_zoo(ctx: &mut Ctx) -> bool {
+    let k = 2 + ctx.rng.below(3) as usize;
+    let mut tys = vec![];
+    for i in 0..k {
+        let t = if i + 1 == k && ctx.rng.bool() {
+            gen::T::word(ctx.rng.below(4) as u32)
+        } else {
+            let d = 1 + ctx.rng.below(3) as usize;
+            gen::gen_t_zoo(&mut ctx.rng, d)
+        };
+        if t.size() > 24 {
+            return false;
+        }
+        tys.push(t);
+    }
+    let plan = gen::witness_zoo_plan(&mut ctx.rng.fork(), &tys);
+    for t in &tys {
+        let (s, l, r) = gen::padding_profile(t);
+        ctx.count_n("zoo:sums", s as u64);
+        ctx.count_n("zoo:equal-width-sums-left-padded-only", l as u64);
+        ctx.count_n("zoo:equal-width-sums-right-padded-only", r as u64);
+    }
+    if one(ctx, &plan) {
+        ctx.count("reach:witness-zoo");
+        true
+    } else {
+        false
+    }
+}
+
 pub fn run(ctx: &mut Ctx) {
+    let nz = ctx.scale(250, 8000);
+    let mut done = 0;
+    for _ in 0..20 * nz {
+        if done >= nz {
+            break;
+        }
+        if witness_zoo(ctx) {
+            done += 1;
+        }
+    }
     let n = ctx.scale(600, 15_000);
     let mut it = 0u64;
     let mut done = 0;
